@@ -1016,8 +1016,7 @@ class Judge:
             self.match_block_segment(rec, wm, seg, rec['expect'].unordered, whole)
             for mm in seg:
                 self.check_message(rec, mm)
-        for rec in recs:
-            self.check_ledger(rec)
+            self.check_ledger(rec)        # in operation order: first cause first
 
     def check_sync_block(self, blk):
         recs = [r for sec in blk['secs'] for r in sec]
